@@ -84,6 +84,7 @@ type gen struct {
 	maxBit int
 	noGo   bool
 	vers   map[string]int
+	redefOther int // redefinitions with another type of a variable that a pointer / function refers to
 }
 
 type fn struct {
@@ -248,7 +249,25 @@ func (g *gen) richExpr(t *typ) (string, string) {
 
 // ---------------------------------------------------------------- statements
 
-func kindOf(t *typ) string { return t.kind }
+// Coq term of Verif.C14.Model.kind: int, complex128 and string are KInt1, KCplx, KBox; every other type is
+// KInt1T n / KBoxT n where n identifies the type (xr.Type.IdenticalTo: slot reuse on redefinition needs the identity)
+var typeTags = map[string]int{}
+
+func kindOf(t *typ) string {
+	switch t.gm {
+	case "int", "complex128", "string":
+		return t.kind
+	}
+	n, ok := typeTags[t.gm]
+	if !ok {
+		n = len(typeTags) + 1
+		typeTags[t.gm] = n
+	}
+	if t.kind == "KBox" {
+		return fmt.Sprintf("(KBoxT %d)", n)
+	}
+	return fmt.Sprintf("(KInt1T %d)", n)
+}
 
 // declaration of a fresh variable of type t
 func (g *gen) declVar(t *typ) {
@@ -472,7 +491,7 @@ func (g *gen) declFunc() {
 		body := "{ return a + 1 }"
 		g.funcs = append(g.funcs, f)
 		g.add(&step{Src: fmt.Sprintf("func %s(a int) int %s", f.gm, body), GoDecl: fmt.Sprintf("func %s(a int) int %s", f.goNm, body),
-			Decl: []int{id}, Model: []string{fmt.Sprintf("SFunc %d true", id)}, Kind: "func"})
+			Decl: []int{id}, Model: []string{fmt.Sprintf("SFunc %d 0 true", id)}, Kind: "func"})
 		return
 	}
 	structs := []*typ{}
@@ -488,7 +507,7 @@ func (g *gen) declFunc() {
 		b := "(n int) int { if n <= 1 { return 1 }; return n * %s(n-1) }"
 		g.funcs = append(g.funcs, f)
 		g.add(&step{Src: "func " + f.gm + fmt.Sprintf(b, f.gm), GoDecl: "func " + f.goNm + fmt.Sprintf(b, f.goNm), Decl: []int{id},
-			Model: []string{fmt.Sprintf("SFunc %d true", id)}, Kind: "func-rec"})
+			Model: []string{fmt.Sprintf("SFunc %d 0 true", id)}, Kind: "func-rec"})
 	case x == 1:
 		v := pick(g.r, ints)
 		v.deps = true
@@ -496,7 +515,7 @@ func (g *gen) declFunc() {
 		f.kind, f.target = "addr", v
 		g.funcs = append(g.funcs, f)
 		g.add(&step{Src: fmt.Sprintf("func %s() *int { return &%s }", f.gm, v.gm), GoDecl: fmt.Sprintf("func %s() *int { return &%s }", f.goNm, v.goNm),
-			Decl: []int{id}, Model: []string{fmt.Sprintf("SFunc %d true", id)}, Kind: "func-addr"})
+			Decl: []int{id}, Model: []string{fmt.Sprintf("SFunc %d 0 true", id)}, Kind: "func-addr"})
 	case x == 2 && len(structs) > 0:
 		t := pick(g.r, structs)
 		f := mk("M")
@@ -513,7 +532,7 @@ func (g *gen) declFunc() {
 		g.funcs = append(g.funcs, f)
 		body := "(a int) int { %s++; return a*2 + %s }"
 		g.add(&step{Src: "func " + f.gm + fmt.Sprintf(body, v.gm, v.gm), GoDecl: "func " + f.goNm + fmt.Sprintf(body, v.goNm, v.goNm),
-			Decl: []int{id}, Model: []string{fmt.Sprintf("SFunc %d true", id)}, Kind: "func"})
+			Decl: []int{id}, Model: []string{fmt.Sprintf("SFunc %d 0 true", id)}, Kind: "func"})
 	}
 }
 
@@ -544,23 +563,34 @@ func (g *gen) redefine() {
 		return
 	}
 	old := pick(g.r, cands)
+	if withDeps := g.varsOf(func(v *variable) bool { return v.deps && v.t.cat != "ptr" && v.t.cat != "struct" }); len(withDeps) > 0 && g.r.Chance(1, 2) {
+		old = pick(g.r, withDeps)
+	}
 	t := old.t
-	if g.r.Chance(1, 3) {
+	if g.r.Chance(1, 3) || (old.deps && g.r.Chance(1, 2)) {
 		if g.core {
-			t = pick(g.r, []*typ{tInt, basicTypes[10], basicTypes[11]}) // int, complex128 (2 slots), string (boxed)
+			t = pick(g.r, []*typ{tInt, basicTypes[10], basicTypes[11], basicTypes[7], basicTypes[2]}) // int, complex128 (2 slots), string (boxed), float64, int64
 		} else {
 			t = pick(g.r, basicTypes)
 		}
 	}
-	if old.deps {
-		// values of other types are not modelled: only without readers
-		if !g.core || t != tInt || old.t != tInt {
+	deps := false
+	if old.deps && t == old.t {
+		// SAME type: the slot is reused, pointers and functions follow the redefined variable (REPL-only semantics,
+		// known finding C14-K1): generated for int in core histories only, the rest of the history is model-only
+		if !g.core || t != tInt {
 			return
 		}
 		g.noGo = true
+		deps = true
+	}
+	// another type (commit C14-4): a NEW variable; pointers taken earlier and functions compiled earlier keep the old
+	// one, exactly as in the Go program where the redefinition is a fresh variable: compared with compiled Go
+	if old.deps && t != old.t {
+		g.redefOther++
 	}
 	g.vers[old.gm]++
-	nv := &variable{id: old.id, gm: old.gm, goNm: fmt.Sprintf("%s_h%dr%d", old.gm, g.hidx, g.vers[old.gm]), t: t, alive: true, bits: 8, deps: old.deps}
+	nv := &variable{id: old.id, gm: old.gm, goNm: fmt.Sprintf("%s_h%dr%d", old.gm, g.hidx, g.vers[old.gm]), t: t, alive: true, bits: 8, deps: deps}
 	old.alive = false
 	var gm, goE, me string
 	if t == tInt {
@@ -572,9 +602,22 @@ func (g *gen) redefine() {
 		me = "EZ 0"
 	}
 	g.vars = append(g.vars, nv)
-	g.add(&step{Src: fmt.Sprintf("var %s %s = %s", nv.gm, t.gm, gm), GoDecl: fmt.Sprintf("var %s %s", nv.goNm, t.goName),
+	kind := "redefine"
+	switch {
+	case old.deps && t != old.t:
+		kind = "redefine:other-type:pointer-or-function-refers-to-old"
+	case old.deps:
+		kind = "redefine:same-type:REPL-only"
+	case t != old.t:
+		kind = "redefine:other-type"
+	}
+	src := fmt.Sprintf("var %s %s = %s", nv.gm, t.gm, gm)
+	if t.cat != "slice" && g.r.Chance(1, 4) {
+		src = fmt.Sprintf("%s := %s(%s)", nv.gm, parenT(t.gm), gm)
+	}
+	g.add(&step{Src: src, GoDecl: fmt.Sprintf("var %s %s", nv.goNm, t.goName),
 		GoBody: fmt.Sprintf("%s = %s", nv.goNm, goE), Decl: []int{nv.id},
-		Model: []string{fmt.Sprintf("SVar %d %s (%s)", nv.id, kindOf(t), me)}, Kind: "redefine"})
+		Model: []string{fmt.Sprintf("SVar %d %s (%s)", nv.id, kindOf(t), me)}, Kind: kind})
 }
 
 func (g *gen) intExprExcluding(old *variable) (string, string, string, int) {
@@ -881,11 +924,12 @@ func main() {
 	rep := vh.NewReport(a, "REPL histories, ONE statement per Interp.Eval (Compile+RunExpr): var/:=/const/func/method/type declarations over "+
 		"{int,int8,int64,uint,uint8,uint16,bool,float32,float64,complex64,complex128,string,[]int,struct,named basic,*T,**int}, assignments, compound assignments, ++, "+
 		"p := &x, p = &y, *p = e, *p += e, **pp, *pp = &y, calls of functions that modify globals or return &global, reads; bulk runs of 3..22 (and 200..1200 in the long "+
-		"histories) declarations one per evaluation after an address was taken; redefinitions `var x T = e` with the same or another type. "+
+		"histories) declarations one per evaluation after an address was taken; redefinitions `var x T = e` / `x := T(e)` with the same or another type, half of them of a variable that a pointer or an earlier function refers to. "+
 		"core histories use only the statements the Coq model interprets exactly (ints, pointers, constants, function slots): values are compared with the model too; "+
 		"rich histories compare the slot layout with the model and all values with compiled Go. corpus/C14/*.json (exact inputs of fixed findings, expected values recorded from compiled Go) run first. "+
 		"Oracle (S): the same statements as one compiled Go program per batch (package-level declarations, statements in order in a function, go 1.18 module), %T and %v of every read equal; "+
-		"a redefinition is rendered as a fresh Go variable; after a redefinition of a variable that a pointer or function refers to (REPL-only semantics) the rest of that history is checked against the model only. "+
+		"a redefinition is rendered as a fresh Go variable - also when pointers or functions still refer to the previous variable and the type changes (they keep the previous variable, commit C14-4); "+
+		"only after a redefinition with the SAME type of a variable that a pointer or function refers to (slot reused: REPL-only semantics, known finding C14-K1, replayed by corpus/C14/90_*) the rest of that history is checked against the model only. "+
 		"non-trivial: the history executes >=1 address-of an Ints slot and declares >=5 variables afterwards; distinct by SHA-256 of the sources")
 	wd := vh.NewWatchdog(rep, 10*time.Minute) // generous: go build of the oracle / the first fast.New() take minutes on a loaded machine
 
@@ -1021,6 +1065,9 @@ func main() {
 				}
 			}
 			rep.Dist("stmt:" + strings.SplitN(s.Kind, ":", 2)[0])
+			if strings.HasPrefix(s.Kind, "redefine:") {
+				rep.Dist("stmt:" + s.Kind)
+			}
 			// ---- model case
 			if !h.corpus {
 				cobs = append(cobs, coqObs(o, h, s))
